@@ -839,6 +839,18 @@ struct ChildOutcome {
     wall_ms: u64,
 }
 
+/// At watchdog expiry: nobody runnable, nobody exiting, and either no CPU time at all in the last
+/// second or only a receiver polling with `nap` (nanosleep) next to threads blocked on a futex.
+fn is_asleep(o: &ChildOutcome) -> bool {
+    let ts = &o.thread_states;
+    if ts.is_empty() || ts.iter().any(|t| t.contains(":R:") || t.contains(":Z:") || t.contains(":X:")) {
+        return false;
+    }
+    let napping = ts.iter().filter(|t| t.contains("nanosleep")).count();
+    let futex = ts.iter().filter(|t| t.contains("futex")).count();
+    o.cpu_last_s <= 2 || (napping > 0 && futex >= 2 && napping + futex == ts.len() && o.cpu_last_s <= 30)
+}
+
 fn run_child(mode: &str, file: &std::path::Path, timeout: Duration) -> ChildOutcome {
     use std::os::unix::process::ExitStatusExt;
     use std::process::{Command, Stdio};
@@ -966,9 +978,7 @@ fn judge(sc: &Scenario, o: &ChildOutcome, watchdog_s: u64) -> Judged {
         let finished: Vec<String> = done.iter().map(|l| l.split(' ').nth(1).unwrap_or("?").to_string()).collect();
         // asleep = no thread runnable and (almost) no CPU consumed in the last second: a deadlock;
         // otherwise the process was still computing (livelock / runaway / too slow): reported apart
-        let asleep = o.cpu_last_s <= 2
-            && !o.thread_states.is_empty()
-            && !o.thread_states.iter().any(|t| t.contains(":R:") || t.contains(":Z:") || t.contains(":X:"));
+        let asleep = is_asleep(o);
         let kind = if asleep { "deadlock" } else { "no-termination-busy" };
         failures.push(serde_json::json!({
             "key": format!("{}:{}", kind, sc.class),
@@ -1259,10 +1269,7 @@ fn main() {
         for sc in &scenarios {
             let busy = {
                 let o = &oc[&sc.id];
-                o.status == "timeout"
-                    && !(o.cpu_last_s <= 2
-                        && !o.thread_states.is_empty()
-                        && !o.thread_states.iter().any(|t| t.contains(":R:") || t.contains(":Z:") || t.contains(":X:")))
+                o.status == "timeout" && !is_asleep(o)
             };
             if busy {
                 reruns += 1;
